@@ -52,9 +52,19 @@ Definition sc_is_unsigned (t : rtype) : bool :=
   | _ => false
   end.
 
-(* scala.rs:450 unsigned_integer_used. NB it looks exactly ONE level below the top of each
-   alias / field / variant type (and not below an array or a slice at all), so e.g. Vec<Vec<u8>>
-   or [u8; 4] print UByte without the `type UByte = Byte` aliases being emitted. *)
+(* scala.rs contains_unsigned_integer (/repo fix of C12-scala-unsigned-depth): an unsigned integer anywhere in
+   the type, at any depth, arrays and slices included - wherever format_type prints UByte/UShort/UInt/ULong. *)
+Fixpoint sc_contains_unsigned (t : rtype) : bool :=
+  match t with
+  | RSimple _ => false
+  | RGeneric _ ps => existsb sc_contains_unsigned ps
+  | RVec x | RArray x _ | RSlice x | ROption x => sc_contains_unsigned x
+  | RHashMap k v => sc_contains_unsigned k || sc_contains_unsigned v
+  | RPrim _ => sc_is_unsigned t
+  end.
+
+(* scala.rs:450 unsigned_integer_used: the types of all aliases, struct fields and variant payloads / fields
+   (whatever their type override), scanned recursively. *)
 Definition sc_unsigned_integer_used (pd : parsed) : bool :=
   let types_in_aliases := map atype (p_aliases pd) in
   let types_in_structs := map fty (flat_map sfields (p_structs pd)) in
@@ -65,14 +75,7 @@ Definition sc_unsigned_integer_used (pd : parsed) : bool :=
                          | VTuple t _ => [t]
                          | VAnon fs _ => map fty fs
                          end) (evariants (enum_shared e))) (p_enums pd) in
-  existsb sc_is_unsigned
-    (flat_map (fun t => match t with
-                        | RGeneric _ ps => ps
-                        | ROption x | RVec x => [x]
-                        | RHashMap k v => [k; v]
-                        | RArray _ _ | RSlice _ | RPrim _ => [t]
-                        | RSimple _ => []
-                        end) (types_in_aliases ++ types_in_structs ++ types_in_enum)).
+  existsb sc_contains_unsigned (types_in_aliases ++ types_in_structs ++ types_in_enum).
 
 (* ---- target type expressions ----
    Layout of a type tree.  The Scala back end builds: XName (user, builtin and container names,
